@@ -30,6 +30,7 @@ func runC19(c *core.Ctx) {
 	h.openStorageRebuild("C19.3d restart-rebuild")
 	h.servePrologue("C19.4 serve-prologue")
 	h.labelCoherence("C19.3e label-coherence")
+	h.bootstrapAdoptsOnlyStored("C19.5 bootstrap-adopts-only-stored")
 }
 
 func runC20(c *core.Ctx) {
@@ -47,4 +48,7 @@ func runC20(c *core.Ctx) {
 	h.setIdentityRefusal("C20.3d set-identity-refusal")
 	h.termVoteWriters("C20.3b value-writers")
 	h.openStorageLoads("C20.4 restart-loads", "identity")
+	c.Clause("C20.5 the lock is removed only by its holder, and the holder has stopped writing when it removes it")
+	h.lockNotTakenFromHolder("C20.5 lock-holder")
+	h.releaseWaitsSnapshot("C20.5b release-waits-snapshot")
 }
